@@ -642,6 +642,104 @@ func runC10(c *Ctx) {
 			"the exceeding edge constructs the size-limit error", "a limit check's exceeding edge does not construct the size-limit (resource_exhausted) error")
 	}
 
+	// ---------------------------------------------------------------- C10.7
+	// (defect D30) The limit also bounds the RE-ENCODED form of a request message.  Wherever the
+	// re-encoding reader takes the message's send buffer, every path to a successful return passes
+	// a comparison of that buffer's length with the limit - whether or not the target's protocol
+	// wraps the message in an envelope.
+	c.Rule("C10.7", "the re-encoded request message is compared with the limit on every path before it is handed on", 1)
+	{
+		trT := types.NewPointer(p.MustNamed("transformingReader"))
+		msgPT := types.NewPointer(p.MustNamed("message"))
+		sendBuf := p.MethodOf(msgPT, "sendBuffer")
+		if sendBuf == nil {
+			fatalf("anchor=message.sendBuffer not found")
+		}
+		nSB := 0
+		for _, fn := range p.Funcs {
+			top := fn
+			for top.Parent() != nil {
+				top = top.Parent()
+			}
+			if top.Signature.Recv() == nil || !types.Identical(top.Signature.Recv().Type(), trT) {
+				continue
+			}
+			for _, call := range Calls(fn) {
+				isSB := false
+				for _, cal := range p.CalleesAt(call) {
+					if cal == sendBuf {
+						isSB = true
+					}
+				}
+				if !isSB {
+					continue
+				}
+				nSB++
+				bufV := call.Value()
+				// the If that compares Len() of this buffer (or of the field it was stored to) with a limit
+				isLimitCmp := func(in ssa.Instruction) bool {
+					iff, ok := in.(*ssa.If)
+					if !ok {
+						return false
+					}
+					b, ok := iff.Cond.(*ssa.BinOp)
+					if !ok {
+						return false
+					}
+					for _, side := range [][2]ssa.Value{{b.X, b.Y}, {b.Y, b.X}} {
+						lenSide, limSide := side[0], side[1]
+						bb := bufferOfLen(lenSide)
+						if bb == nil {
+							// a local that holds buf.Len()
+							for _, l := range Origins(lenSide) {
+								if l.Kind == "call" && IsCallTo(l.Call, "(*bytes.Buffer).Len") {
+									bb = l.Call.Common().Args[0]
+								}
+							}
+						}
+						if bb == nil {
+							continue
+						}
+						same := bb == bufV
+						if !same {
+							// stored into a field and re-loaded
+							if f := LoadedField(bb); f != nil {
+								for _, st := range StoresToField(fn, f) {
+									if st.Val == bufV {
+										same = true
+									}
+								}
+							}
+						}
+						if same && lc.isLimit(limSide) {
+							return true
+						}
+					}
+					return false
+				}
+				ei := errorResultIndex(fn.Signature)
+				okExit := func(in ssa.Instruction) bool {
+					ret, ok := in.(*ssa.Return)
+					if !ok {
+						return false
+					}
+					if ei < 0 {
+						return true
+					}
+					rv := ReturnValues(ret)
+					return ei < len(rv) && IsNilConst(rv[ei])
+				}
+				found, path := PathQuery{Target: okExit, Avoid: isLimitCmp}.Search(fn, call)
+				c.Check(!found, "C10.7", FuncName(fn), "reencoded-size-checked", call.Pos(),
+					"every successful path after taking the send buffer compares its length with the message limit",
+					"the re-encoded message can be handed on without its size being compared with the limit ("+witnessString(p, path)+"): a request that grows beyond the limit when re-encoded is delivered to the backend (for un-enveloped targets)")
+			}
+		}
+		if nSB == 0 {
+			c.Bad("C10.7", "transformingReader", "reencoded-size-checked", token.NoPos, "the re-encoding reader never takes the message's send buffer: shape changed")
+		}
+	}
+
 	// ---------------------------------------------------------------- C10.6
 	// The limit-enforcing reader tells 'exactly the limit' from 'more than the limit' by letting
 	// the source deliver one byte more.  It must never end the stream on its own: a synthesised
